@@ -140,3 +140,52 @@ End Materials.
 
 Arguments PFloat {K}. Arguments PInt {K}. Arguments PTuple {K}.
 Arguments NOk {K}. Arguments NValueError {K}.
+
+(* ---------- comparison helpers for the correspondence (Qc instance) ---------- *)
+From Coq Require Import QArith Qcanon.
+From FV Require Import base.Util.
+Definition of_Zq (z : Z) : Qc := Q2Qc (inject_Z z).
+Definition pv_check (v : PyVal QcOF) (e : bool * Qc) : bool :=
+  match v with
+  | PFloat x => fst e && Qc_eqb x (snd e)
+  | PInt n => negb (fst e) && Qc_eqb (of_Zq n) (snd e)
+  | PTuple _ => false
+  end.
+Fixpoint list_all2 {A B} (f : A -> B -> bool) (a : list A) (b : list B) : bool :=
+  match a, b with [], [] => true | x :: a', y :: b' => f x y && list_all2 f a' b' | _, _ => false end.
+(* expected: Some [(is_float, value); ...] or None for ValueError *)
+Definition norm_check (r : NormResult QcOF) (exp : option (list (bool * Qc))) : bool :=
+  match r, exp with
+  | NOk l, Some e => list_all2 pv_check l e
+  | NValueError, None => true
+  | _, _ => false
+  end.
+Definition C9 := mk9 QcOF.
+Definition CMAT := mkMat QcOF.
+(* the predicate vector in the driver's order *)
+Definition preds_of (rel : Qc) (m : Mat QcOF) : list bool :=
+  let iso p := is_isotropic QcOF rel p in let dg p := is_diagonal QcOF rel p in
+  [iso (m_eps _ m); dg (m_eps _ m); iso (m_mu _ m); dg (m_mu _ m); iso (m_sige _ m); dg (m_sige _ m); iso (m_sigm _ m); dg (m_sigm _ m);
+   is_magnetic QcOF rel m; is_econductive QcOF rel m; is_mconductive QcOF rel m;
+   iso (m_eps _ m) && iso (m_mu _ m) && iso (m_sige _ m) && iso (m_sigm _ m);
+   dg (m_eps _ m) && dg (m_mu _ m) && dg (m_sige _ m) && dg (m_sigm _ m)].
+Definition natlist_eqb := list_eqb Nat.eqb.
+Definition t9_eqb (a : T9 QcOF) (b : list Qc) : bool := qlist_eqb (t9_list _ a) b.
+Definition mat_eqb (m : Mat QcOF) (b : list (list Qc)) : bool :=
+  match b with [e; u; s; t] => t9_eqb (m_eps _ m) e && t9_eqb (m_mu _ m) u && t9_eqb (m_sige _ m) s && t9_eqb (m_sigm _ m) t | _ => false end.
+Definition relclose (tol a b : Qc) : bool := Qcleb (Qc_abs (a - b)%Qc) (tol * Qc_abs b)%Qc.
+Definition mat_close (tol : Qc) (m : Mat QcOF) (b : list (list Qc)) : bool :=
+  match b with
+  | [e; u; s; t] => list_eqb (relclose tol) (t9_list _ (m_eps _ m)) e && list_eqb (relclose tol) (t9_list _ (m_mu _ m)) u
+                    && list_eqb (relclose tol) (t9_list _ (m_sige _ m)) s && list_eqb (relclose tol) (t9_list _ (m_sigm _ m)) t
+  | _ => false
+  end.
+Definition complex_check (tol : Qc) (r : MatResult QcOF) (exp : option (list (list Qc))) : bool :=
+  match r, exp with
+  | MOk _ m, Some b => mat_close tol m b
+  | MSingular _, None => true
+  | _, _ => false
+  end.
+Definition PF (x : Qc) : PyVal QcOF := @PFloat QcOF x.
+Definition PI (n : Z) : PyVal QcOF := @PInt QcOF n.
+Definition PT (l : list (PyVal QcOF)) : PyVal QcOF := @PTuple QcOF l.
